@@ -3,5 +3,6 @@
 using namespace gmlc::libguarded;
 void drv(atomic_guarded<vf::payload>& a, const atomic_guarded<vf::payload>& ca, const vf::payload& p, vf::payload& q){
     (void)ca.load(); a.store(p); a.store(std::move(q)); a = p; a = std::move(q);
+    { vf::payload viaConversion = ca; }
     (void)a.exchange(p); (void)a.compare_exchange(q, p); (void)a.compare_exchange(q, std::move(q));
 }
